@@ -301,6 +301,12 @@ def walk_no_nested(fnode):
         stack.extend(ast.iter_child_nodes(n))
 
 
+def root_name_(t):
+    while isinstance(t, (ast.Subscript, ast.Attribute)):
+        t = t.value
+    return t.id if isinstance(t, ast.Name) else None
+
+
 def local_env(prog, f, summaries=None, cls=None):
     """flow-insensitive classes of f's locals: join over all assignments (two passes for chains)."""
     env = {}
@@ -350,8 +356,28 @@ def local_env(prog, f, summaries=None, cls=None):
             is_list = isinstance(v, (ast.List, ast.ListComp)) or (isinstance(v, ast.Call) and norm(v.func) in ('list', 'sorted'))
             lists[t.id] = lists.get(t.id, True) and is_list
     env['$lists'] = {k for k, v in lists.items() if v}
+    # a parameter that is rebound somewhere keeps its caller-owned value on the paths that do not pass the rebinding: it joins the
+    # classes of its assignments, unless the first rebinding is an unconditional top-level statement of the body with no store
+    # through the name before it (`x = np.array(x)` at the top of a function: the caller's array is dead from there on)
+    live_params = {}
+    top = {id(st): st for st in f.node.body}
+    for p_ in f.params:
+        if p_ not in assigned or p_ in ('self', 'cls'):
+            continue
+        rebinds = [st for st in f.node.body if isinstance(st, ast.Assign) and any(isinstance(t_, ast.Name) and t_.id == p_ for t_ in st.targets)]
+        first_any = min((getattr(t_, 'lineno', 0) for t_, _v in assigns for n_ in ast.walk(t_) if isinstance(n_, ast.Name) and n_.id == p_), default=0)
+        dominated = bool(rebinds) and rebinds[0].lineno == first_any
+        if dominated:
+            before = [n_ for n_ in walk_no_nested(f.node) if isinstance(n_, (ast.Assign, ast.AugAssign)) and getattr(n_, 'lineno', 0) < first_any
+                      and any(isinstance(t_, ast.Subscript) and root_name_(t_) == p_ for t_ in (n_.targets if isinstance(n_, ast.Assign) else [n_.target]))]
+            dominated = not before
+        if not dominated:
+            live_params[p_] = alias({'param:' + p_})
     for _ in range(4):
         new = dict((k, v) for k, v in env.items() if v == ('int',) or k in ('$kinds', '$lists'))
+        for p_, cl_ in live_params.items():
+            if new.get(p_) != ('int',):
+                new[p_] = cl_
         c = Classifier(prog, f, dict(env), summaries, cls)
         c.assigned = assigned
         for t, v in assigns:
